@@ -752,7 +752,7 @@ def oracle(ctx, history, req_, pre_dump, obs, twin_factory=None, extra=None):
                 v('placeholder-leak', 'identifier-less %s succeeded although nothing was created earlier in the batch' % r['op'], position=k)
             if last_uid is not None and r['ok'] and r['uid'] != last_uid:
                 v('placeholder-wrong', 'identifier-less %s answered for %s, the batch created %s last' % (r['op'], r['uid'], last_uid), position=k)
-            if last_uid is not None and alive and not r['ok']:
+            if last_uid is not None and alive and not r['ok'] and r['reason'] == 'ITEM_NOT_FOUND':   # (denied by the object's policy is not a placeholder matter)
                 v('placeholder-lost', 'identifier-less %s failed (%s) although the batch created %s and did not destroy it' % (r['op'], r['reason'], last_uid), position=k)
         if r['ok'] and b[0] == 'destroy':
             alive = alive and not (b[1] is None or str(b[1]) == last_uid)
@@ -983,6 +983,8 @@ def gen_all(run, ctx):
                 run.history([req([i, s_same, I_create(names=[52])], ver=ver, opt=opt)], 'mix:F S S')
                 run.history([req([I_create(names=[53]), i, s_same], ver=ver, opt=opt)], 'mix:S F S')
             run.history([req([s_same, I_get(tt, 'GET_ATTRIBUTES'), i, I_get(tt, 'GET_ATTRIBUTES')], ver=ver, opt='CONTINUE')], 'mix:S R F R')
+            run.history([req([i, s_same], ver=ver, opt=rng.choice(['CONTINUE', 'STOP']))], 'mix:F S')
+            run.history([req([s_same, i], ver=ver, opt=rng.choice([None, 'STOP', 'CONTINUE']), ids=True)], 'mix:S F')
     # (4) placeholder batches
     users = ['alice', 'bob']
     for ver in VERSIONS:
@@ -1058,7 +1060,7 @@ def gen_wire(run, ctx):
     for r in fixed:
         for mx in [None, 0, 1, 64, 150, 300, 1048576]:
             run.wire([], r, mx, 'wire:fixed')
-    pool = [m for m in run.meta if m['label'] in ('random', 'placeholder', 'mix:F S S', 'mix:S F S', 'header:options', 'header:time stamp')]
+    pool = [m for m in run.meta if m['label'] in ('random', 'placeholder', 'mix:F S S', 'mix:S F S', 'mix:F S', 'header:options', 'header:time stamp')]
     rng.shuffle(pool)
     for m in pool[:(120 if quick else 1500)]:
         run.wire(m['history_after_setup'], m['request'], rng.choice([None, None, 0, 1, 100, 200, 300, 500, 1048576]), 'wire:' + m['label'])
@@ -1113,6 +1115,7 @@ def run(ctx):
     if fd.exists():
         have = {f.get('id') for f in ctx.findings}
         ctx.findings += [f for f in json.loads(fd.read_text()) if f.get('property') == 'C08' and f.get('id') not in have]
+    ctx.regen(only=['batchorder'])       # tie T: raise / mutation / commit order of every handler, from engine.py
     ctx.prove('props/C08.v', extra_targets=['theories/Batch/Cases.v', 'theories/Batch/SessionCases.v'])
     runner = Runner(ctx)
     gen_all(runner, ctx)
